@@ -251,15 +251,22 @@ def _vacuity_extra(spec_path, names):
 
 
 def _all_fn_names(g):
-    """name -> kind for every exec/proof fn in the generated file (spec fns excluded)."""
+    """name -> kind for every exec/proof fn in the generated file that Verus actually verifies
+    (spec fns and external_body stubs - assumed contracts - are excluded: they are not obligations)."""
     out = {}
+    prev_attr = ''
     for l in g.lines:
-        m = re.match(r'\s*(?:pub\s+)?(?:(proof|exec|spec|open spec|closed spec)\s+)?fn\s+([A-Za-z0-9_]+)', l)
-        if m and not l.strip().startswith('//'):
+        st = l.strip()
+        if st.startswith('#['):
+            prev_attr += st
+            continue
+        m = re.match(r'\s*(?:pub\s+)?(?:(proof|exec|spec|open spec|closed spec|uninterp spec)\s+)?fn\s+([A-Za-z0-9_]+)', l)
+        if m and not st.startswith('//'):
             kind = m.group(1) or 'exec'
-            if 'spec' in kind:
-                continue
-            out[m.group(2)] = kind
+            if 'spec' not in kind and 'external_body' not in prev_attr and m.group(2) != 'main':
+                out[m.group(2)] = kind
+        if st and not st.startswith('//') and st not in ('/*+spec*/', '/*-spec*/'):
+            prev_attr = ''
     return out
 
 
